@@ -545,6 +545,44 @@ func rulesC15(c *Ctx) {
 		c.Check(fbGuard, "Authorize:fallback-only-without-metadata", az, nil, "the fallback is taken only when GetAuthServerMetadata returned (nil, nil)")
 	})
 
+	c.Rule("R-C15-9", "the client credentials used in a round are resolved against that round's authorization server: the handler keeps no resolved client between rounds (a remembered client is handed to whatever issuer the next discovery names, before the issuer binding is looked at)", func() {
+		h := c.P.LookupType("auth", "AuthorizationCodeHandler")
+		rc := c.P.LookupType("auth", "resolvedClientConfig")
+		c.Need(h != nil && rc != nil, "AuthorizationCodeHandler / resolvedClientConfig")
+		n := 0
+		for _, fld := range structFields(h) {
+			n++
+			holds := false
+			var walk func(t types.Type, d int)
+			walk = func(t types.Type, d int) {
+				if d > 5 {
+					return
+				}
+				switch x := t.(type) {
+				case *types.Named:
+					if x.Obj() == rc.Obj() {
+						holds = true
+					}
+				case *types.Pointer:
+					walk(x.Elem(), d+1)
+				case *types.Slice:
+					walk(x.Elem(), d+1)
+				case *types.Map:
+					walk(x.Key(), d+1)
+					walk(x.Elem(), d+1)
+				}
+			}
+			walk(fld.Type(), 0)
+			c.sites++
+			if holds {
+				c.add(c.rule, "handler-field:"+fld.Name(), c.P.Rel(fld.Pos()), vViolation, "AuthorizationCodeHandler."+fld.Name()+" keeps a resolved client between authorization rounds")
+			} else {
+				c.add(c.rule, "handler-field:"+fld.Name(), c.P.Rel(fld.Pos()), vOK, "holds no resolved client")
+			}
+		}
+		c.Pin("fields of AuthorizationCodeHandler", n, 3)
+	})
+
 	c.Rule("R-C15-5", "credentials pre-registered for a named issuer are never used with another one; dynamic registration goes to the metadata's registration endpoint", func() {
 		hr := c.Fn(pA, "AuthorizationCodeHandler", "handleRegistration")
 		g := hr.Graph()
